@@ -879,6 +879,8 @@ done:
 					}
 				}
 			} else {
+				// A sibling that shares the marker has to be expanded as well.
+				stack[len(stack)-1] = di &^ descentFlag
 				stack = append(stack, prev)
 			}
 		case Root:
